@@ -182,3 +182,8 @@ _set('C16', 'level_text', 'Proof (Kani, loop-free) of the PRINT separator/newlin
 _add('C16', 'decides', 'PRINT USING (Verus): print_non_formatting_chars copies the literal text cyclically up to the next field opener, a format without a field is Illegal function call; `\\ \\` field: the string left-justified in exactly (blanks+2) columns, `!`: the first character; numeric field = maximal run of # , . with the cursor right after it, integer part right-justified, thousands separators between digits only (known finding F110 carved out: the tree copies the commas of the format); successive values use successive fields, the format is reused cyclically; print_number: one print call with [blank if non-negative] + Display + blank, strings verbatim.')
 _set('C16', 'not_decided', 'the decimal text of a number (core::fmt); fmt_with_fractional_part beyond the concrete cases of the bounded companion; malformed numeric fields; -0.0 framing; per-device tracking (structural: one WritePrinter per device)')
 _set('C16', 'technique', 'Kani harnesses with a recording Printer on the real PrintState / WritePrinter + Verus contracts on the extracted PRINT USING / framing code and on the PRINT emitters of the generator')
+
+_add('C12', 'decides', 'Top of the pipeline: lint = pre_lint -> convert -> post_linter (first error unchanged, Ok => all nine post-linters accepted the converted program); the statement converter routes each of the 23 statement kinds to exactly its own rule; PrintLinter over the deep traversal (Ok <=> every PRINT anywhere has a string format and only numbers/strings as arguments); the pre-linter records every implementation with its signature.')
+_add('C07', 'decides', 'Totality (no panic site, termination) also of the units added in session 3 that list C07: name_rules, stmt_dispatch, print_linter, dots_linter, pre_linter, arg_validation, builtin_arg_rules, lint_pipeline.')
+_add('C11', 'decides', 'stmt_dispatch: a converted statement keeps the position of the statement it was made from.')
+_add('C01', 'decides', 'lint_pipeline / stmt_dispatch: the checker stage a program passes through before it runs is the composition of its three stages, each statement handled by the rule of its own kind.')
